@@ -26,7 +26,7 @@ def tasks(tier, seed):
         func("bt.core.CouponPayingSecurity.update"), func("bt.core.HedgeSecurity.update"), func("bt.core.CouponPayingHedgeSecurity.update"), *UPDATE_ALL,
         dict(kind="custom", module="props.lemmas", fn="c07_trade_lemmas"),
         dict(kind="custom", module="props.bounded", fn="run_script", script="c10_buffers", seed=seed, n=1, props=["C10"]),
-        dict(kind="custom", module="props.bounded", fn="run_script", script="c05_sizing", seed=seed, n=1500 if tier == "quick" else 40000, props=["C10"]),
+        dict(kind="custom", module="props.bounded", fn="run_script", script="c05_sizing", seed=seed, n=1500 if tier == "quick" else 40000, props=["C10"], params={"only_raises": True}),
         dict(kind="custom", module="props.bounded", fn="run_script", script="c10_smoke", seed=seed, n=25 if tier == "quick" else 400, props=["C10"]),
     ]
 
